@@ -764,9 +764,21 @@ func (w *world) opSetActive(o Op) *hx.Failure {
 	}
 	vs := w.versions[name]
 	id := vs[mod(o.V, len(vs))]
-	rt, f := w.both(o.K, fmt.Sprintf("tx=%d %s version #%d %s", o.Tx, name, mod(o.V, len(vs)), id), func(n *hx.Node, _ bool) string {
+	ids := []string{id}
+	if o.B && o.Tx != 0 {
+		// two switches in ONE explicit transaction: to version #V, then to version #X (which may be the
+		// one that was active before - then the transaction's net effect on the schema is nil)
+		ids = append(ids, vs[mod(o.X, len(vs))])
+		id = ids[1]
+	}
+	rt, f := w.both(o.K, fmt.Sprintf("tx=%d %s version #%d %v", o.Tx, name, mod(o.V, len(vs)), ids), func(n *hx.Node, _ bool) string {
 		return inTx(n, o.Tx, func(s client.Store, ctx context.Context) string {
-			return errText(s.SetActiveSchemaVersion(ctx, id))
+			for _, v := range ids {
+				if rt := errText(s.SetActiveSchemaVersion(ctx, v)); isErr(rt) {
+					return rt
+				}
+			}
+			return "ok"
 		})
 	})
 	if f != nil {
@@ -776,6 +788,9 @@ func (w *world) opSetActive(o Op) *hx.Failure {
 	if took(o, rt) {
 		w.changed("schema-version")
 		w.info.flag("op:setactive-ok")
+		if len(ids) > 1 {
+			w.info.flag("op:two-setactive-in-one-committed-transaction")
+		}
 		if len(vs) > 1 {
 			w.info.flag("op:setactive-among-several-versions")
 		}
